@@ -195,3 +195,48 @@ Section CallSites.
 End CallSites.
 Arguments mapped {A C}.
 Arguments keep {C}.
+
+(* ------------------------------------------------------------------------------------------ *)
+(* tasks that receive an options object (a dict) and may write into it                          *)
+(* ------------------------------------------------------------------------------------------ *)
+(* `refine_droplet(phase_field, candidate, least_squares_params=o)`: `task o x` = (result, state of the dict
+   the task worked on when it returns).  Whether that dict is the object the caller handed in or a copy made
+   by the task before its first write is a fact about the source (`copies`, generated: Gen_glue.v).
+     serial branch: ONE options object is handed to every task in turn -- what an earlier task wrote is seen by
+                    the later ones, and by the caller afterwards;
+     pool branch:   every task receives its own unpickled copy of the caller's object (executor.map with the
+                    default chunksize 1); the caller's object is never touched. *)
+Section OptionsState.
+  Variables A C O : Type.
+  Variable is_none : C -> bool.
+  Variable P : parallel_glue.
+  Variable copies : bool.
+  Variable task : O -> A -> C * O.
+
+  (* one call: result, and the state of the object that was handed in *)
+  Definition call_task (o : O) (x : A) : C * O :=
+    let (y, o') := task o x in (y, if copies then o else o').
+
+  Fixpoint serial_tasks (o : O) (xs : list A) : list C * O :=
+    match xs with
+    | [] => ([], o)
+    | x :: xs' => let (y, o1) := call_task o x in
+                  let (ys, o2) := serial_tasks o1 xs' in (y :: ys, o2)
+    end.
+
+  (* results and the caller's options object after the call *)
+  Definition mapped_with_options (o : O) (np : nproc) (ncpu : nat) (sigma : list nat) (xs : list A)
+    : outcome (list C * O) :=
+    if is_serial P np then
+      let (ys, o') := serial_tasks o xs in Done (keep is_none (p_serial_filters_none P) ys, o')
+    else
+      let w := workers P np ncpu in
+      if Nat.eqb w 0 then Failed BadWorkerCount
+      else match pool_collect (fun x => fst (call_task o x)) (p_gather P) xs sigma w with
+           | Some ys => Done (keep is_none (p_parallel_filters_none P) ys, o)
+           | None => Failed Blocked
+           end.
+End OptionsState.
+Arguments call_task {A C O}.
+Arguments serial_tasks {A C O}.
+Arguments mapped_with_options {A C O}.
